@@ -40,7 +40,7 @@ def complex_literal(z):
     return t
 
 
-def operands():
+def operands(depth=1):
     cm, _ = uflmodel.base_models()
     arg = terminal("arg", (), "Argument")
     argv = terminal("argv", (2,), "Argument")
@@ -84,6 +84,31 @@ def operands():
         ("sin(x[0])", cm["Sin"](idx(x, 0))),
         ("real(f)*arg", P(cm["Real"](f), arg)),
     ]
+    # generated: every wrapper chain (depth <= `depth`) over the four kinds of leaves
+    cnd = uflmodel.m_rel("<")(idx(x, 0), h)
+    lab = Obj("label", ufl_class="Label", ufl_operands=(), _ufl_is_terminal_=True)
+    wrappers = [
+        ("conditional(c, ., x[1])", lambda a: uflmodel.m_conditional(cnd, a, idx(x, 1))),
+        ("conditional(c, 0.5, .)", lambda a: uflmodel.m_conditional(cnd, half, a)),
+        ("(. + x[1])", lambda a: S(a, idx(x, 1))),
+        ("(h * .)", lambda a: P(h, a)),
+        ("(. / h)", lambda a: uflmodel.m_division(a, h)),
+        ("sin(.)", lambda a: cm["Sin"](a)),
+        ("variable(.)", lambda a: cm["Variable"](a, lab)),
+        ("as_vector([., h])[0]", lambda a: idx(uflmodel.m_list_tensor(a, h), 0)),
+        ("as_vector([h, .])[i]*x[i]", lambda a: (lambda i: mult(idx(uflmodel.m_list_tensor(h, a), i), idx(x, i)))(new_index())),
+    ]
+    leaves = [("arg", arg), ("f", f), ("2", two), ("1j", onej)]
+    gen = list(leaves)
+    frontier = list(leaves)
+    for _ in range(depth):
+        nxt = []
+        for (dw, wfn), (dl, l) in itertools.product(wrappers, frontier):
+            nxt.append((dw.replace(".", dl), wfn(l)))
+        gen += nxt
+        frontier = nxt
+    have = {d for d, _ in ops}
+    ops += [(d, e) for d, e in gen if d not in have]
     return ops
 
 
@@ -114,7 +139,7 @@ def run(ctx) -> Report:
     ctx.crosscheck_dispatch({"CheckComparisons", "ComplexNodeRemoval"})
     ccls = prog.get_class(CHK)
     cm, _ = uflmodel.base_models()
-    ops = operands()
+    ops = operands(2 if ctx.thorough() else 1)
     builders = [
         ("lt", lambda a, b: uflmodel.m_conditional(uflmodel.m_rel("<")(a, b), a, b)),
         ("gt", lambda a, b: uflmodel.m_conditional(uflmodel.m_rel(">")(a, b), a, b)),
